@@ -401,6 +401,9 @@ def _gen_musig(n, with_root):
                 d["k%d2" % i] = rng.randrange(1, N)
             d["msg"] = _rb(rng, 32)
             d["root"] = _rb(rng, 32) if with_root else b""
+            # boundary nonce secrets (the legal range is [1, n-1]): the first tuples carry n-1, 1 and n-2 in turn
+            if t < 2 * n:
+                d["k%d%d" % (t // 2 + 1, t % 2 + 1)] = (N - 1, 1, N - 2, N - 1)[t % 4]
             yield d
     return gen
 
